@@ -239,24 +239,25 @@ PROPS = {
         "standin_replay": "bounded, not proof: eight proofs serialised by the unchanged tree (replay/vectors.txt: bit lengths 1..64, aggregation 1..8, extension degrees 1..6, "
                           "with and without seed and promises, capacity above the aggregation factor) must still decode, re-encode identically, be accepted in all three modes "
                           "and yield the recorded masks under statements rebuilt from the same seeds",
-        "units": ["transcripts", "nonce", "codec", "gens_chain", "ristretto_glue"],
+        "units": ["transcripts", "nonce", "codec", "gens_chain", "pedersen_statics", "ristretto_glue"],
         "design_ref": "DESIGN.md section 7, C19",
         "technique": "contract-based deductive verification (Verus): the released wire format written once as specification functions (transcript layout, nonce KDF byte layout, proof byte layout); the real code proved to conform",
         "claim": "Conformance to the frozen 0.4.0 wire specification as written in /verif/spec: the transcript layout full_log (domain separator, labels H, G, N, T, M, Ci, "
                  "'vi - minimum_value', A, y, z, L, R, e, A1, B, r1, s1, d1; order; 8-byte LE integers; 32-byte encodings), the nonce KDF input layout (0x00 || seed || ['j' || le32(j)] "
                  "|| ['k' || le32(k)], label as Blake2b persona, empty salt, wide reduction) and the proof byte layout (degree byte, d1, A, A1, B, r1, s1, interleaved L/R). Any change "
                  "of a label, hash input, index encoding or absorption order fails a named obligation. NOT decided: that recorded 0.4.0 proofs verify and that an independent "
-                 "implementation interoperates (replaying vectors is testing; there is no second implementation to put under contract); generator derivation labels "
-                 "(GeneratorsChain, ristretto.rs) are outside the units under contract.",
+                 "implementation interoperates (replaying vectors is testing; there is no second implementation to put under contract). The generator derivation primitives are "
+                 "under contract as well: the 'GeneratorsChain' || label SHAKE256 input and 64-byte stride (unit gens_chain) and the masking base point labels "
+                 "'RISTRETTO_MASKING_BASEPOINT_' || decimal(k + 1) hashed with SHA3-512 (unit pedersen_statics).",
         "assumptions": ["the specification functions were transcribed from the 0.4.0 sources and the RFC; agreement with recorded vectors is not checked here",
-                        "generator derivation (SHAKE256 chains, SHA3-512 masking basepoints) is not under contract"],
+                        "SHAKE256, SHA3-512, from_uniform_bytes and the decimal rendering of an index are uninterpreted functions; the per-party labels 'G'/'H' || le32(i) are obligations of C11 (unit gens_new), not repeated here"],
     },
     "C11": {
         "standin_replay": "bounded, not proof: the input-free generator statics (value generator, six blinding generators, their compressed forms) and the vector generators for "
                           "(bits, capacity) in {(4,1),(4,4),(8,2),(64,2)} and their 4x capacities are computed by the real crate and checked for non-identity, pairwise distinctness, "
                           "capacity independence and compress() agreement, and compared with an independent recomputation of the documented derivations (SHAKE256 chain, SHA3-512 hash to "
                           "point, Ristretto basepoint) done with the sha3 crate directly",
-        "units": ["gens_new", "gens_chain", "pedersen_ctor", "gens", "ctors", "ristretto_glue"],
+        "units": ["gens_new", "gens_chain", "pedersen_ctor", "pedersen_statics", "gens", "ctors", "ristretto_glue"],
         "design_ref": "DESIGN.md section 7, C11",
         "technique": "contract-based deductive verification (Verus) of the real BulletproofGens::new, generator iterators and accessors against a SHAKE256 / hash-to-group model",
         "claim": "Proved: BulletproofGens::new(n, c) returns Ok iff c <= 2^32, and then g_vec[i][j] is the j-th point of the generator chain labelled 'G' || le32(i) and h_vec[i][j] "
@@ -266,12 +267,14 @@ PROPS = {
                  "GeneratorsChain::new absorbs exactly 'GeneratorsChain' || label into SHAKE256, GeneratorsChain::next returns from_uniform_bytes of the next 64 output bytes, and "
                  "hash_from_bytes_sha3_512(x) = from_uniform_bytes(SHA3-512(x)) - against uninterpreted SHAKE256 / SHA3-512 functions; create_pedersen_gens_with_extension_degree(d) "
                  "(unit pedersen_ctor) returns the Ristretto basepoint as value generator and exactly the first d masking base points with their compressed forms, with "
-                 "g_base_vec.len() == d (the two once-initialised tables it reads are assumed to hold masking_point(k) and its encoding). Determinism is a consequence of the functional contracts. NOT decidable by "
-                 "contracts: pairwise distinctness and non-identity (facts about concrete SHAKE/SHA3 outputs), the once-initialised statics of ristretto.rs (string formatting "
-                 "inside OnceCell closures) and 'on every thread'.",
+                 "g_base_vec.len() == d; the two once-initialised tables it reads are under contract too (unit pedersen_statics): the initialiser closures handed to OnceCell::get_or_init "
+                 "are proved to fill entry k with hash_from_bytes_sha3_512('RISTRETTO_MASKING_BASEPOINT_' || decimal(k + 1)) and with its compressed form, for all six k. Determinism is a "
+                 "consequence of the functional contracts. NOT decidable by contracts: pairwise distinctness and non-identity (facts about concrete SHAKE/SHA3 outputs), that "
+                 "OnceCell hands every thread the same initialised value (its documented behaviour, assumed), and the decimal digits `usize::to_string` produces (uninterpreted).",
         "assumptions": ["GeneratorsChain::new(label).take(n) is modelled as the first n points p_from_uniform(SHAKE256('GeneratorsChain' || label)[64j..64j+64]) (site-specific rewrite R-CHAINTAKE: `take(n)` of the chain is its first n `next()` results; new / next themselves are verified in unit gens_chain)",
                         "byteorder::LittleEndian::write_u32, Iterator::flat_map over |v| v.iter(), itertools::interleave and the dalek precomputation constructor are modelled by their documented sequence semantics",
-                        "blinding generators and the value generator (ristretto.rs) are outside the units under contract"],
+                        "OnceCell::get_or_init on a function-local static is modelled as 'returns a reference to a value the initialiser closure returned' (R-ONCE); `<str>.to_owned() + &i.to_string()` as bytes(str) ++ decimal(i) with decimal uninterpreted (R-STRCAT); `(a..)` under zip as the sequence a, a+1, ... (R-RANGEFROM)",
+                        "the value generator is dalek's RISTRETTO_BASEPOINT_POINT constant (external)"],
     },
     "C12": {
         "units": ["gens_new", "gens", "ctors", "verify", "verify_rel", "prove"],
